@@ -72,10 +72,19 @@ let rec show_all with_live ops obs = match ops, obs with
   | op :: r, o :: s -> show with_live op o :: show_all with_live r s
   | _, _ -> []
 
+(* node lookup by name (mpt_node_locate): line  <id> L <names "," separated> <start> <pos> <key> *)
+let locate_case id names start pos key =
+  let names = List.map data_of (String.split_on_char ',' names) in
+  let p = if pos > 0 then LFwd (nat_of_int pos) else if pos = 0 then LLast else LBwd (nat_of_int (- pos)) in
+  let show r = match r with Some i -> "F:" ^ string_of_int (int_of_nat i) | None -> "F:-" in
+  Printf.printf "M %s %s\n" id (show (locate names (nat_of_int start) p (data_of key)));
+  Printf.printf "S %s %s\n" id (show (locate_spec names (nat_of_int start) p (data_of key)))
+
 let () =
   let ic = open_in Sys.argv.(1) in
   List.iter (fun line ->
     match split_ws line with
+    | id :: "L" :: names :: start :: pos :: key :: _ -> locate_case id names (int_of_string start) (int_of_string pos) key
     | id :: rest ->
       let rec hdr acc l = match l with
         | "--" :: r -> (List.rev acc, r)
